@@ -9,6 +9,33 @@ ROOT = os.path.dirname(os.path.dirname(os.path.abspath(__file__)))
 
 # id -> (category, technique, level text, level note, design ref)
 CHECKS = {
+    'C02': ('exploration', 'corpus universe x seeded whitespace configs + line-level mutants + Hypothesis-generated C programs (layout engine); '
+            'round-trip oracle through an independent lexer and through the hook-dumped tokenizer view',
+            'Every corpus file of all nine languages under the default and seeded whitespace-only configs, a single-option sweep of the '
+            'add/remove/force options, line-level mutants of corpus files and Hypothesis-generated C programs with macros, '
+            'continuations, inactive branches and fusion-prone operator adjacencies in random layouts: the output must lex - by an '
+            'independent C-family lexer and by uncrustify\'s own tokenizer re-run on the output - to the same code-token sequence '
+            'including directive boundaries and in-preprocessor flags, and the chunk list written must carry the same non-blank '
+            'characters as the tokenizer produced.',
+            'The independent lexer covers C, C++, ObjC, Java; the other five languages rely on the self-tokenizer relation. Backslash + '
+            'blanks + newline is judged under both the ISO and the gcc splice convention. Multi-option configurations are sampled.',
+            'DESIGN.md §3 C02'),
+    'C03': ('exploration', 'corpus + Hypothesis-generated programs with comments in every trivia slot + generated literal carriers; '
+            'round-trip oracle on comment and literal token sequences (independent lexer and tokenizer view)',
+            'Comments (kind, text modulo the continuation-line layout the statement allows) and string / character / raw-string / '
+            'header-name literals (byte-exact) of the input must reappear in the same order and number in the output, for the corpus, '
+            'for generated C programs with comments of eight shapes in every trivia slot, and for literal carriers in eight languages '
+            'whose contents are drawn from newlines, tabs after spaces, quotes, comment openers and near-miss closing delimiters.',
+            'cmt_*, sp_cmt_cpp_*, string_replace_tab_chars and header insertion stay at default as the statement requires; line '
+            'terminators inside multi-line literals may follow the newlines option.', 'DESIGN.md §3 C03'),
+    'C04': ('exploration', 'corpus + Hypothesis-generated C programs x random subsets of the mod_ options; metamorphic oracle: streams with '
+            'the named token kinds removed are equal, per-kind count direction, bracket balance, owned lines as multisets',
+            'For random non-empty subsets of the mod_ options (plus whitespace options) and a single-option sweep, the input and output '
+            'token streams (independent lexer and tokenizer view) must be equal as sequences after removing the token kinds the enabled '
+            'options document, each kind\'s count may change only in the documented direction, brackets stay balanced, and lines owned '
+            'by the sort / de-duplicate options are compared as multisets of whole lines.',
+            'Kinds and directions per option are a table written from the option documentation; mod_sort_oc_properties is outside '
+            'the domain; program shapes for non-C languages come from the corpus only.', 'DESIGN.md §3 C04'),
     'C15': ('exploration', 'exhaustive option x value enumeration + seeded random configs; round-trip / idempotence / differential oracle',
             'Every option is set singly to every enumerated, boundary and special string value (all ~3300 settings visited in both '
             'tiers), every directive form, seeded spellings, references and random whole configs; each dump is parsed by an '
